@@ -244,8 +244,7 @@ def one_case(ctx, cid, rng, idx):
             import h5py
             lines = gen.blacklist_bed(rng, bt, opts["blacklist"])
             bf = path + ".bl.bed"
-            with open(bf, "w") as fh:
-                fh.writelines(f"{a}\t{b}\t{e}\n" for a, b, e in lines)
+            c.feature("blacklist:bed-first-line:" + gen.write_blacklist_bed(rng, bf, lines))
             args = ["balance", uri, "--name", "wbl", "--force", "--blacklist", bf,
                     "--ignore-diags", str(opts["ignore_diags"]), "--mad-max", str(opts["mad_max"]),
                     "--min-nnz", str(opts["min_nnz"]), "--min-count", str(opts["min_count"]),
